@@ -1,4 +1,5 @@
 import PyGam.Proofs.Expectile
+import PyGam.Proofs.ExpectileSearch
 /-!
 # C18 — ExpectileGAM fits the requested expectile; fit_quantile reaches its quantile
 
@@ -223,6 +224,112 @@ theorem fitQuantile_post (ratio : Nat → α → α) (q tol : α) (maxIter : Int
     | true => exact Or.inl ⟨rfl, (withinTol_iff _ _ _).mp (hp.1 hb)⟩
     | false => exact Or.inr ⟨rfl, by simpa using hp.2 hb⟩
 
+/-! ### `fit_quantile` forwards its keywords (the sample weights) to *every* fit
+
+The theorems above treat "set the expectile, re-fit, predict, count" as an oracle `ratio k e`.  The ones below are about
+`fitQuantileW fit ratio kw …`, where the fit is a function **of the keywords `fit_quantile` forwards to `fit`** (`kw` =
+the sample weights) and of the expectile: they say which model is returned — the weighted fit at the reported
+expectile — so that the balance property applies to it *with the weights that were passed*. -/
+
+omit [IsStrictOrderedRing α] in
+/-- argument rejection is the same whatever is fitted -/
+theorem fitQuantileW_rejects {κ μ : Type} (fit : κ → α → μ) (ratio : μ → α) (kw : κ) (q tol : α)
+    (maxIter : Int) (e0 : α) (pre : Option μ) :
+    fitQuantileW fit ratio kw q tol maxIter e0 pre = none ↔ (q ≤ 0 ∨ 1 ≤ q ∨ tol ≤ 0 ∨ maxIter ≤ 0) := by
+  have h := fitQuantile_rejects (fun _ _ => (0 : α)) q tol maxIter e0
+  unfold fitQuantile at h
+  unfold fitQuantileW
+  by_cases ha : argsOk q tol maxIter = true
+  · rw [if_pos ha] at h ⊢
+    exact ⟨fun hh => absurd hh (by simp), fun hh => absurd (h.mpr hh) (by simp)⟩
+  · rw [if_neg ha] at h ⊢
+    exact ⟨fun _ => h.mp rfl, fun _ => rfl⟩
+
+/-- every re-fit of the search is `fit kw e` — the fit with the keywords that were passed to `fit_quantile`, not a fit
+with some of them dropped — at an expectile strictly inside `(0,1)`; and there are at most `max_iter` of them -/
+theorem every_refit_uses_forwarded_keywords {κ μ : Type} (fit : κ → α → μ) (ratio : μ → α) (kw : κ)
+    (q tol : α) (fuel : Nat) (e0 : α) (start : μ) (h0 : 0 < e0) (h1 : e0 < 1) :
+    (∀ em ∈ searchTrace fit ratio kw q tol fuel { b := { lo := 0, hi := 1, e := e0, nIter := 0 }, model := start },
+        em.2 = fit kw em.1 ∧ 0 < em.1 ∧ em.1 < 1) ∧
+    (searchTrace fit ratio kw q tol fuel { b := { lo := 0, hi := 1, e := e0, nIter := 0 }, model := start }).length
+      ≤ fuel := by
+  refine ⟨searchTrace_mem fit ratio kw q tol fuel _ ⟨le_refl 0, h0, h1, le_refl 1⟩, ?_⟩
+  have l := searchTrace_length fit ratio kw q tol fuel
+    { b := { lo := 0, hi := 1, e := e0, nIter := 0 }, model := start }
+  have n := (searchLoop_nIter_le fit ratio kw q tol fuel
+    { b := { lo := 0, hi := 1, e := e0, nIter := 0 }, model := start }).2
+  simp only [Nat.zero_add] at l n
+  omega
+
+/-- **post-condition of `fit_quantile`, with the returned model identified.**  For valid arguments and a starting
+expectile in `(0,1)` the call returns a state whose expectile is strictly inside `(0,1)`, after at most `max_iter`
+re-fits; either the ratio of the *returned model* is within `tol` of the quantile or all `max_iter` steps were used;
+and the returned model is the start model (`n_iter = 0`, expectile unchanged: the already fitted model, or the first fit
+`fit kw e0`) or else `fit kw expectile` — the fit **with the forwarded keywords** at the reported expectile. -/
+theorem fitQuantileW_post {κ μ : Type} (fit : κ → α → μ) (ratio : μ → α) (kw : κ) (q tol : α)
+    (maxIter : Int) (e0 : α) (pre : Option μ)
+    (hq0 : 0 < q) (hq1 : q < 1) (htol : 0 < tol) (hmi : 0 < maxIter) (h0 : 0 < e0) (h1 : e0 < 1) :
+    ∃ res, fitQuantileW fit ratio kw q tol maxIter e0 pre = some res ∧
+      (0 < res.1.b.e ∧ res.1.b.e < 1) ∧
+      res.1.b.nIter ≤ maxIter.toNat ∧
+      ((res.2 = true ∧ |ratio res.1.model - q| ≤ tol) ∨
+       (res.2 = false ∧ res.1.b.nIter = maxIter.toNat)) ∧
+      ((res.1.b.nIter = 0 ∧ res.1.b.e = e0 ∧ res.1.model = searchStart fit kw e0 pre) ∨
+       (0 < res.1.b.nIter ∧ res.1.model = fit kw res.1.b.e)) := by
+  have hne : ¬ (fitQuantileW fit ratio kw q tol maxIter e0 pre = none) := by
+    rw [fitQuantileW_rejects]; push Not; exact ⟨hq0, hq1, htol, hmi⟩
+  have hdef : fitQuantileW fit ratio kw q tol maxIter e0 pre
+      = some (searchLoop fit ratio kw q tol maxIter.toNat
+          { b := { lo := 0, hi := 1, e := e0, nIter := 0 }, model := searchStart fit kw e0 pre }) := by
+    unfold fitQuantileW at hne ⊢
+    by_cases ha : argsOk q tol maxIter = true
+    · rw [if_pos ha]
+    · rw [if_neg ha] at hne; exact absurd rfl hne
+  refine ⟨_, hdef, ?_, ?_, ?_, ?_⟩
+  · have hI := searchLoop_inv fit ratio kw q tol maxIter.toNat
+      { b := { lo := 0, hi := 1, e := e0, nIter := 0 }, model := searchStart fit kw e0 pre }
+      ⟨le_refl 0, h0, h1, le_refl 1⟩
+    exact ⟨lt_of_le_of_lt hI.1 hI.2.1, lt_of_lt_of_le hI.2.2.1 hI.2.2.2⟩
+  · have h := (searchLoop_nIter_le fit ratio kw q tol maxIter.toNat
+      { b := { lo := 0, hi := 1, e := e0, nIter := 0 }, model := searchStart fit kw e0 pre }).2
+    simpa using h
+  · have hp := searchLoop_post fit ratio kw q tol maxIter.toNat
+      { b := { lo := 0, hi := 1, e := e0, nIter := 0 }, model := searchStart fit kw e0 pre }
+    cases hb : (searchLoop fit ratio kw q tol maxIter.toNat
+      { b := { lo := 0, hi := 1, e := e0, nIter := 0 }, model := searchStart fit kw e0 pre }).2 with
+    | true => exact Or.inl ⟨rfl, (withinTol_iff _ _ _).mp (hp.1 hb)⟩
+    | false => exact Or.inr ⟨rfl, by simpa using hp.2 hb⟩
+  · rcases searchLoop_model fit ratio kw q tol maxIter.toNat
+      { b := { lo := 0, hi := 1, e := e0, nIter := 0 }, model := searchStart fit kw e0 pre } with h | h
+    · left; rw [h.2]; exact ⟨rfl, rfl, rfl⟩
+    · right; exact ⟨by simpa using h.1, h.2⟩
+
+/-- **the model returned by `fit_quantile(…, weights = w)` balances the `w`-weighted residuals at the expectile it
+reports.**  Models are coefficient vectors, the forwarded keyword is the weight vector `w`.  If `fit w e` is a converged
+ExpectileGAM fit of the `w`-weighted data for every `e ∈ (0,1)` (and so is an already fitted model the search may start
+from), then the returned `β` is a fixed point of the `w`-weighted iteration at the returned expectile `τ`, hence
+`τ Σ_{r>0} wᵢ rᵢ − (1−τ) Σ_{r≤0} wᵢ |rᵢ| = A_{j0 j0} β_{j0}` with **these** weights. -/
+theorem fitQuantileW_returns_weighted_expectile_fit (n m : Nat) (B : Nat → Nat → α) (A : Nat → Nat → α)
+    (y : Nat → α) (j0 : Nat) (hj : j0 < m) (hB : ∀ i < n, B i j0 = 1) (hA : ∀ k < m, k ≠ j0 → A j0 k = 0)
+    (fit : (Nat → α) → α → (Nat → α)) (ratio : (Nat → α) → α) (w : Nat → α) (q tol : α) (maxIter : Int)
+    (e0 : α) (pre : Option (Nat → α))
+    (hq0 : 0 < q) (hq1 : q < 1) (htol : 0 < tol) (hmi : 0 < maxIter) (h0 : 0 < e0) (h1 : e0 < 1)
+    (hfit : ∀ e, 0 < e → e < 1 → ExpectileFixedPoint e n m B w A y (fit w e))
+    (hpre : ∀ b, pre = some b → ExpectileFixedPoint e0 n m B w A y b) :
+    ∃ res, fitQuantileW fit ratio w q tol maxIter e0 pre = some res ∧
+      ExpectileFixedPoint res.1.b.e n m B w A y res.1.model ∧
+      balance res.1.b.e n w y (linPred m B res.1.model) = A j0 j0 * res.1.model j0 := by
+  obtain ⟨res, hres, hin, _, _, hmodel⟩ :=
+    fitQuantileW_post fit ratio w q tol maxIter e0 pre hq0 hq1 htol hmi h0 h1
+  have hfp : ExpectileFixedPoint res.1.b.e n m B w A y res.1.model := by
+    rcases hmodel with ⟨_, he, hm⟩ | ⟨_, hm⟩
+    · rw [he, hm]
+      cases pre with
+      | none => exact hfit e0 h0 h1
+      | some b => exact hpre b rfl
+    · rw [hm]; exact hfit _ hin.1 hin.2
+  exact ⟨res, hres, hfp, expectile_balance_defect _ n m B w A y _ j0 hj hB hA hfp⟩
+
 /-! ### non-vacuity -/
 
 /-- the trace of the docstring example: quantile 0.9, tol 0.01, start 0.5, observed ratios
@@ -240,5 +347,21 @@ example : ExpectileFixedPoint (1/4 : ℚ) 2 1 (fun _ _ => 1) (fun _ => 1) (fun _
   norm_num [gramW, rhsW, sumTo, expWeight, asym, linPred]
 
 example : fitQuantile (α := ℚ) (fun _ _ => 0) 1 (1/100) 20 (1/2) = none := by decide +kernel
+
+/-- the search on an intercept-only model, `y = (0,1,2,3,4)`, no ridge, quantile 3/5, start ½: with the weights
+`w = (9,1,1,1,1)` forwarded to every fit the search re-fits twice (expectiles ¾, ⅞) and returns the coefficient
+`52/25`, the `w`-weighted ⅞-expectile; the same call with unit weights re-fits once and returns `8/3` — a re-fit that
+drops the keyword produces a different trace and a different returned model -/
+example : (fitQuantileW (α := ℚ) (interceptModelFit 0 5 (fun i => (i : ℚ)) 20 0) (interceptRatio 5 (fun i => (i : ℚ)))
+      (fun i => if i = 0 then 9 else 1) (3/5) (1/100) 20 (1/2) none).map (fun r => (r.1.b.e, r.1.b.nIter, r.1.model.1))
+    = some (7/8, 2, 52/25) := by decide +kernel
+
+example : (fitQuantileW (α := ℚ) (interceptModelFit 0 5 (fun i => (i : ℚ)) 20 0) (interceptRatio 5 (fun i => (i : ℚ)))
+      (fun _ => 1) (3/5) (1/100) 20 (1/2) none).map (fun r => (r.1.b.e, r.1.b.nIter, r.1.model.1))
+    = some (3/4, 1, 8/3) := by decide +kernel
+
+/-- and `52/25` does balance the weighted residuals at ⅞: `⅞·(1·(3−52/25) + 1·(4−52/25)) = ⅛·(9·52/25 + 27/25 + 2/25)` -/
+example : balance (7/8 : ℚ) 5 (fun i => if i = 0 then 9 else 1) (fun i => (i : ℚ)) (fun _ => 52/25) = 0 := by
+  decide +kernel
 
 end PyGam.C18
